@@ -8,19 +8,10 @@ from sa.poly import RF, fn_atom
 from sa.selftest import Edit, Variant
 from sa.sym import ClassRef, Cond, Ext, Interp, PyCallable, Rec, SymStr, Undecided, Unknown, closure_of, explore, method_of, to_rf, simplify_num
 
-EXPLANATION = (
-    "The 0.03% distance bound and the segment count are numeric (not decided). Decided by interpreting arc_to_cubic.py symbolically: "
-    "(radii) the EllipticalArc that reaches the parametrisation carries |rx|, |ry|; (dispatch) coincident end points - tested with exact "
-    "equality, first - give no segment, a zero radius gives exactly one (None, None, end), everything else goes to _arc_to_cubic; (radius "
-    "correction) the scale test is x'^2/rx^2 + y'^2/ry^2 > 1 with (x', y') the half chord rotated by -phi exactly as in the specification "
-    "(F.6.6), both radii are scaled by the same sqrt, and the correction runs before the parametrisation; (flags) the centre for "
-    "(large, sweep) and its flag-complement are mirror images about the chord midpoint, centres agree when large == sweep flips together, "
-    "theta_arc is adjusted by +2pi only when negative with sweep and by -2pi only when positive without; (segments) end_theta(i) = "
-    "start_theta(i+1), the control points follow the 4/3*tan(delta/4) construction, all intermediate points go through translate(center) o "
-    "rotate(phi) o scale(rx, ry), and the last segment ends at the unmodified arc end point; plus the arcs_to_cubics callback rules of C09."
-)
-ASSUMPTIONS = ["accuracy of the cubic approximation and the segment count (ceil of |theta|/(pi/2 + 0.001)) are not decided",
-               "atan2/sqrt/max are opaque atoms"]
+from sa.texts import T as _T
+
+EXPLANATION = _T["C12"]["explanation"] + " Not decided: " + _T["C12"]["not_decided"] + "."
+ASSUMPTIONS = _T["C12"]["assumptions"]
 P = "C12"
 S = RF.sym
 
